@@ -6,13 +6,9 @@ The filings of a manifest are `Spec.entries` : (variant, arch, object id, attrib
 image dictionary of the document (iteration order) the object id k; an image found under `src` is ONE object filed
 under every other arch key of ITS variant (`Img.refile`), any other image goes to its own cell.
 -/
-namespace PM.Img
+namespace PM.Img.C10
 open PM PM.PyOps PM.Spec
 set_option Elab.async false
-
-theorem pyEq_str (a b : Str) : pyEq (.str a) (.str b) = true ‚Üî a = b := by
-  rw [pyEq_iff]
-  simp [eqKey, numNorm, PyVal.canon]
 
 /-- the arch keys under which `_add_1_1` files an image read from `(variant, a)`; `ks` = the arch keys of that variant -/
 def targets (ks : List Str) (a : Str) : List Str :=
@@ -386,4 +382,4 @@ theorem archKey_of_entry {cs : Cells} {e : Str √ó Str √ó Nat √ó Image} (h : e ‚à
   simp only [archKeys, List.mem_flatMap, List.mem_map]
   exact ‚ü®va, hva, ac, hac, rfl‚ü©
 
-end PM.Img
+end PM.Img.C10
